@@ -7,6 +7,7 @@ from framework import Unit
 
 CORN32 = [0, 1, 2, 0x7F, 0x80, 0xFF, 0x7FFF, 0x8000, 0xFFFF, 0x7FFFFFFF, 0x80000000, 0xFFFFFFFC, 0xFFFFFFFF,
           0x12345678, 0xDEADBEEF, 0xAAAAAAAA, 0x55555555]
+SPEC_IMPORTS = 'From ArmV Require Import Spec.Pseudocode Spec.Expected.'
 IMPORTS = 'From ArmV Require Import Spec.Pseudocode Spec.Expected.\nFrom Gen Require Import enums bits_ops shift.'
 
 
@@ -318,7 +319,7 @@ def helper_units():
                 out.append({'impl': {'kind': 'call', 'mod': mod, 'fn': fn, 'args': iargs, 'rt': rt},
                             'model': model, 'spec': spec, 'label': fn, 'nontrivial': True})
             return out
-        units.append(Unit(fn, thms, PROOF_FILES[mod], [f'{mod}.{fn}'], cases, IMPORTS))
+        units.append(Unit(fn, thms, PROOF_FILES[mod], [f'{mod}.{fn}'], cases, IMPORTS, SPEC_IMPORTS))
     return units
 
 
